@@ -38,7 +38,12 @@ pub fn iter_protocol<T: PartialEq + std::fmt::Debug + Clone, I: Iterator<Item = 
             other => return Some(format!("item {i} = {other:?} expected {e:?}")),
         }
     }
-    for _ in 0..2 {
+    for round in 0..3 {
+        // an exhausted iterator has nothing left, however often it is polled: its hint must say so
+        let (lo, hi) = it.size_hint();
+        if lo != 0 || hi.is_some_and(|h| h != 0) && round > 0 {
+            return Some(format!("size_hint() = ({lo}, {hi:?}) on an exhausted iterator (polled {round} times after the end)"));
+        }
         if let Some(x) = it.next() {
             return Some(format!("next() after the last item = Some({x:?})"));
         }
